@@ -588,6 +588,43 @@ def proposal_kernels(job, rec, rng):
 
         st.two_stage(rec, "proposal-not-reversible", pv, n,
                      lambda: f"{kind} proposal (sigma {sigma:.3g}): the probability of proposing b from a differs from that of proposing a from b", ctx)
+        # detailed balance over the whole interval, not only between two frozen states: with the current value drawn
+        # uniformly from an interval I, the pair (value, proposal) restricted to I x I has density q(x, y) / |I|, which is
+        # symmetric under exchange iff the kernel is reversible; cell (i, j) and cell (j, i) must then be equally populated.
+        # (pure reflection, pure wrapping, folding at zero are all symmetric; a mixture of rules on the two sides is not.)
+        if np.isinf(hi):
+            I_lo, I_hi = (0.0, 4 * sigma) if kind == "abs" else (a - 2.5 * sigma, a + 2.5 * sigma)
+        else:
+            I_lo, I_hi = lo, hi
+
+        def pv_sym(m, stage, I_lo=I_lo, I_hi=I_hi):
+            from scipy import stats as sst
+
+            pp = make(a)
+            xs = rng.uniform(I_lo, I_hi, size=m)
+            ys = np.empty(m)
+            for k in range(m):
+                pp.samples[-1] = float(xs[k])
+                ys[k] = pp.proposal()
+            G_ = 12
+            keep = (ys >= I_lo) & (ys <= I_hi)
+            ci = np.minimum(((xs[keep] - I_lo) / (I_hi - I_lo) * G_).astype(int), G_ - 1)
+            cj = np.minimum(((ys[keep] - I_lo) / (I_hi - I_lo) * G_).astype(int), G_ - 1)
+            N = np.zeros((G_, G_))
+            np.add.at(N, (ci, cj), 1)
+            iu = np.triu_indices(G_, 1)
+            up_, dn_ = N[iu], N.T[iu]
+            ok_ = (up_ + dn_) >= 40
+            if ok_.sum() < 5:
+                return 1.0
+            rec.count("proposal:symmetry_cells", int(ok_.sum()))
+            stat = float(((up_[ok_] - dn_[ok_]) ** 2 / (up_[ok_] + dn_[ok_])).sum())
+            return float(sst.chi2.sf(stat, int(ok_.sum())))
+
+        rec.count("proposal:symmetry_tests")
+        st.two_stage(rec, "proposal-not-reversible", pv_sym, 5 * n,
+                     lambda: f"{kind} proposal (sigma {sigma:.3g}, limits [{lo:.4g}, {hi:.4g}]): with the current value uniform over an interval, the pairs (value, proposal) "
+                             f"are not exchangeable - the proposal density is not symmetric", ctx)
         if kind == "standard":
             def pv2(m, stage):
                 from scipy import stats as sst
